@@ -30,6 +30,9 @@ def sh(cmd, **kw):
 def one(sid):
     pid, tag = sid.split('-')
     src = f'{SRC}/seed-{pid}'
+    if tag in ('C', 'D'):      # round 2: A -> C, B -> D
+        src = f'{SRC}2/seed-{pid}'
+        tag = {'C': 'A', 'D': 'B'}[tag]
     patch = next(p for p in (f'{src}/patch_{tag}.ported.diff', f'{src}/patch_{tag}.diff') if os.path.exists(p))
     demo = next(p for p in (f'{src}/demo_{tag}.ported.py', f'{src}/demo_{tag}.py') if os.path.exists(p))
     wt = f'/tmp/wt-seed-{sid}'
